@@ -49,6 +49,12 @@ func run(t *testing.T, c Case) (res result) {
 }
 
 func runInBubble(c Case) (res result) {
+	// whatever the outcome: let the closer/canceller goroutines finish before
+	// the bubble ends (a bubble must not end with blocked goroutines)
+	defer func() {
+		time.Sleep(300 * time.Millisecond)
+		synctest.Wait()
+	}()
 	fail := func(sig, format string, args ...any) result {
 		res.sig = sig
 		res.err = fmt.Errorf(format, args...)
@@ -242,9 +248,6 @@ func runInBubble(c Case) (res result) {
 			delete(inSet, i)
 		}
 	}
-	// let the closer goroutines finish so the bubble can end
-	time.Sleep(200 * time.Millisecond)
-	synctest.Wait()
 	sort.Strings(res.classes)
 	return res
 }
